@@ -243,7 +243,7 @@ func (vc *VC) block(b *ssa.BasicBlock, entry *State) {
 				names[k] = true
 			}
 		}
-		for k := range names {
+		for _, k := range sortedKeys(names) {
 			sort := vc.heapSort[k]
 			t := vc.heapGet(ins[len(ins)-1].st, k, sort)
 			same := true
@@ -400,12 +400,12 @@ func (vc *VC) loopHeader(li *LoopInfo, reach Term, entrySt *State, entryPhi map[
 	if mod["*"] {
 		vc.havocAll(st)
 	}
-	for name := range mod {
+	for _, name := range sortedKeys(mod) {
 		vc.havocHeap(st, name)
 	}
 	if !mod["*"] {
 		a0 := vc.allocGet(vc.entry)
-		for name := range vc.loopFrameFacts(li) {
+		for _, name := range sortedKeys(vc.loopFrameFacts(li)) {
 			sort, ok := vc.heapSort[name]
 			if !ok || !mod[name] {
 				continue
@@ -426,7 +426,9 @@ func (vc *VC) loopHeader(li *LoopInfo, reach Term, entrySt *State, entryPhi map[
 	if !mod["*"] {
 		// single-target loops: every write into a Mem_ heap goes through one loop-invariant slice value
 		freshFramed := vc.loopFrameFacts(li)
-		for name, base := range vc.loopSingleBase(li) {
+		singleBase := vc.loopSingleBase(li)
+		for _, name := range sortedKeys(singleBase) {
+			base := singleBase[name]
 			if freshFramed[name] {
 				continue // the stronger provenance-based frame already covers this heap
 			}
